@@ -172,8 +172,10 @@ type C10Case struct {
 	PairSeed   uint64 `json:"pair_seed"`
 	Stream     string `json:"stream"` // plain | optimized | signature | overlay
 	Comp       Comp   `json:"comp"`
-	Consumer   string `json:"consumer"` // apply | optimize | signature | overlay
-	Kind       string `json:"kind"`     // truncate | mutate | sighashes
+	Consumer   string `json:"consumer"`          // apply | optimize | signature | overlay
+	Empties    int    `json:"empties,omitempty"` // > 0: the base is c10SigBase(PairSeed, Empties, NonEmpty)
+	NonEmpty   int    `json:"non_empty,omitempty"`
+	Kind       string `json:"kind"` // truncate | mutate | sighashes
 	Cut        int    `json:"cut,omitempty"`
 	Mut        string `json:"mut,omitempty"` // description of the mutation
 	MutSeed    uint64 `json:"mut_seed,omitempty"`
@@ -189,6 +191,30 @@ type c10Base struct {
 	overlayStream    []byte
 	msgs, omsgs      []PMsg
 	cleanup          func()
+}
+
+// c10SigBase: only a signature, of a synthetic build with `empties` empty files (each owns one hash although it has
+// no block) sorted before `nonEmpty` one-block files.
+func c10SigBase(env *Env, seed uint64, empties, nonEmpty int) *c10Base {
+	r := wvlib.NewRng(seed)
+	bd := &wvlib.Build{}
+	for i := 0; i < empties; i++ {
+		bd.Entries = append(bd.Entries, wvlib.BEntry{Path: fmt.Sprintf("a%02d.empty", i), Kind: 'f'})
+	}
+	for i := 0; i < nonEmpty; i++ {
+		bd.Entries = append(bd.Entries, wvlib.BEntry{Path: fmt.Sprintf("b%02d.bin", i), Kind: 'f', Data: r.Bytes(1 + r.Intn(40))})
+	}
+	dir := env.Scratch.Sub("c10sig")
+	bd.Write(dir + "/b")
+	b := &c10Base{seed: seed, dir: dir, od: dir + "/b", nd: dir + "/b", cleanup: func() { os.RemoveAll(dir) }, plain: map[string][]byte{}, optimized: map[string][]byte{}, sig: map[string][]byte{}}
+	sig, _, err := oldSigBytes(dir+"/b", Comp{"none", 0})
+	if err != nil {
+		panic(err)
+	}
+	b.sig["none"] = sig
+	b.newC, _ = tlc.WalkAny(dir+"/b", tlc.WalkOpts{})
+	b.oldC = b.newC
+	return b
 }
 
 func c10MakeBase(env *Env, seed uint64) *c10Base {
@@ -407,7 +433,12 @@ func runC10(env *Env) {
 	if env.Replay != "" {
 		var c C10Case
 		replayCase(env, &c)
-		b := c10MakeBase(env, c.PairSeed)
+		var b *c10Base
+		if c.Empties > 0 {
+			b = c10SigBase(env, c.PairSeed, c.Empties, c.NonEmpty)
+		} else {
+			b = c10MakeBase(env, c.PairSeed)
+		}
 		defer b.cleanup()
 		jobs = append(jobs, c10Rebuild(b, &c))
 	} else {
@@ -477,6 +508,18 @@ func runC10(env *Env) {
 			for drop := 1; drop <= 6; drop++ {
 				c := &C10Case{PairSeed: b.seed, Stream: "signature", Consumer: "signature", Kind: "sighashes", DropHashes: drop, Comp: Comp{"none", 0}}
 				jobs = append(jobs, c10Rebuild(b, c))
+			}
+		}
+		// the same for builds with empty files sorted first and a hash count just past a power of two (the capacity
+		// ReadSignature's slice of hashes happens to have), short by 1..empties+1 hashes
+		for _, total := range []int{5, 9, 17, 33} {
+			for e := 1; e <= 3; e++ {
+				b := c10SigBase(env, rng.Next(), e, total-e)
+				bases = append(bases, b)
+				for drop := 1; drop <= e+1; drop++ {
+					c := &C10Case{PairSeed: b.seed, Empties: e, NonEmpty: total - e, Stream: "signature", Consumer: "signature", Kind: "sighashes", DropHashes: drop, Comp: Comp{"none", 0}}
+					jobs = append(jobs, c10Rebuild(b, c))
+				}
 			}
 		}
 	}
